@@ -259,7 +259,7 @@ Fixpoint ins (k : key) (p : prop) (l : list (key * prop)) : list (key * prop) :=
 Fixpoint remove (k : key) (l : list (key * prop)) : list (key * prop) :=
   match l with
   | [] => []
-  | (k', p') :: l' => if key_eqb k k' then l' else (k', p') :: remove k l'
+  | (k', p') :: l' => if key_eqb k k' then remove k l' else (k', p') :: remove k l'
   end.
 Fixpoint plookup (n : Z) (l : list (Z * prop)) : option prop :=
   match l with
